@@ -36,7 +36,12 @@ DEFS = "MCSlots == {" + ", ".join('"%s"' % s for s in ALL) + "}"
 
 def _instance(rng, layout):
     while True:
-        inst = ic.random_instance(rng, H=7, W=7, interior=3, layouts=(layout,), kshapes=((1, 1), (3, 3), (1, 3), (3, 1)))
+        inst = ic.random_instance(rng, H=7, W=7, interior=3, layouts=(layout.lower(),), kshapes=((1, 1), (3, 3), (1, 3), (3, 1)))
+        if layout == "F":  # a single REGULARISED function list and no mapper: still the in-place F += H path
+            inst["objs"][0]["reg"] = True
+            inst["objs"][0]["me"] = 0
+            if len(inst["objs"][0]["M"][0]) < 2:
+                continue
         # at least one regularised object, every mapper regularised with enough data to be well conditioned
         for o in inst["objs"]:
             if o["type"] == "mapper":
@@ -196,7 +201,7 @@ def run(ctx):
     quick = ctx.quick
     rng = np.random.default_rng(ctx.seed)
     ctx.bounds = {"slots": ALL, "runs": 3, "reads_per_run": 3 if quick else 4, "simulated_behaviours": 120 if quick else 1200,
-                  "layouts": ["m", "mf", "fm", "mm"], "formalisms": ["mapping", "w_tilde"]}
+                  "layouts": ["m", "F (one regularised function list)", "mf", "fm", "mm"], "formalisms": ["mapping", "w_tilde"]}
     reads = ctx.bounds["reads_per_run"]
     for single in (True, False):
         ctx.tlc("Preloads", _cfg("mc", True, single, 3, reads), defs=DEFS, tag=f"MC_Preloads_{'single' if single else 'multi'}", timeout=900)
@@ -218,7 +223,7 @@ def run(ctx):
             beh = states[-1][1]["hist"]
             ctx.states += len(beh)
             ctx.transitions += len(beh) - 1
-            layout = "m" if single else ["mf", "fm", "mm"][len(jobs) % 3]
+            layout = ["m", "F"][len(jobs) % 2] if single else ["mf", "fm", "mm"][len(jobs) % 3]
             inst = _instance(rng, layout)
             jobs.append((beh, inst, ["mapping", "w_tilde"][len(jobs) % 2], bool((len(jobs) // 2) % 2)))
     groups = [jobs[k : k + 4] for k in range(0, len(jobs), 4)]
